@@ -6,10 +6,10 @@
    transport combinators, for EVERY oracle: each upstream exchange costs at most
    5 s per transport, query_nameserver at most 10 s, and no step moves the clock
    past the 60 s budget (the 60 s wrapper is the check inside [charge]).
-   Not yet proved (follow-up): recursive_terminates / forwarding_terminates (a
-   fuel bound for every oracle), no_panic, answer_provenance.  Until then those
-   clauses are covered by the differential stream and the oracle of
-   vlib/p_c08.py only. *)
+   FOLLOW-UP (second half of this file): recursive_terminates /
+   forwarding_terminates for every oracle, no_panic, answer_provenance, and two
+   worked oracles (circular referral, upstream alias loop).  Outside the model
+   (runtime): that tokio's timeout fires, cancellation safety, real sockets. *)
 From RV Require Import Base.Prelude Wire.WireTypes Resolver.TransportModel Resolver.ResolverFacts.
 
 (* each exchange costs at most 5 s per transport, whatever the peer does *)
@@ -55,3 +55,233 @@ Example C08_silent_peer_costs_5s :
   /\ udp_outcome {| t_bytes := Some [1; 2]; t_delay_ms := 5000; t_close := true; t_refuse := false |} = (5000, Some [1; 2])
   /\ udp_outcome {| t_bytes := Some [1; 2]; t_delay_ms := 5001; t_close := true; t_refuse := false |} = (5000, None).
 Proof. vm_compute. repeat split. Qed.
+
+(* ====================================================================== *)
+(* FOLLOW-UP: termination for every oracle, no panic, provenance            *)
+(* (lemmas: Resolver/RecursiveProofs.v, Resolver/ForwardingProofs.v)        *)
+(* ====================================================================== *)
+From RV Require Import Name.NameModel Wire.WireModel Zone.ZoneModel Resolver.LocalModel Resolver.LocalProofs
+     Resolver.ValidateModel Resolver.ValidateSpec Resolver.RecursiveModel Resolver.ForwardingModel Resolver.Universe
+     Resolver.RecursiveProofs Resolver.ForwardingProofs.
+
+(* The one thing assumed of the peer: what it sends are octets (the model's bytes are [N]). *)
+
+(* recursive_terminates.  For EVERY oracle, every cache (an arbitrary type with arbitrary read and
+   insert functions), every zone set, every candidate order [sort_names] (not even required to be a
+   permutation), every protocol mode and every state there is a fuel F from which on the model's
+   result no longer depends on the fuel and is not OutOfFuel.  The measure behind F is
+   lexicographic: free slots of the question stack (every nested resolution pushes a question or
+   fails the limit / duplicate guard; limit RECURSION_LIMIT = 32), labels of the question name still
+   to be matched (every accepted referral strictly increases the match count, which never exceeds
+   the number of labels of the question name: C06_delegation_progress), candidates left
+   (2 * fast-pass candidates + deferred ones + 1, resp. the slow-pass candidates).  F depends on the
+   oracle through the number of host names in the referrals it sends, so it is existential; the
+   drivers pass RESOLVER_FUEL and the correspondence stream would show OutOfFuel if that were ever
+   too little. *)
+Theorem C08_recursive_terminates :
+  forall (cache : Type) (cache_get : cache -> dname -> N -> list rr) (cache_insert_all : cache -> list rr -> cache)
+         (sort_names : list dname -> list dname) (zs : zones) (o : oracle) (pmode : protocol_mode) (port : N),
+  oracle_bytes_ok o -> forall q st,
+  exists F,
+    fst (resolve_recursive cache cache_get cache_insert_all sort_names zs o pmode port F q st) <> OutOfFuel
+    /\ forall fuel, (F <= fuel)%nat ->
+         resolve_recursive cache cache_get cache_insert_all sort_names zs o pmode port fuel q st
+         = resolve_recursive cache cache_get cache_insert_all sort_names zs o pmode port F q st.
+Proof. exact recursive_terminates. Qed.
+Print Assumptions C08_recursive_terminates.
+
+(* forwarding_terminates, with an explicit fuel: 34 = RECURSION_LIMIT + 2 nested calls always suffice *)
+Theorem C08_forwarding_terminates :
+  forall (cache : Type) (cache_get : cache -> dname -> N -> list rr) (cache_insert_all : cache -> list rr -> cache)
+         (zs : zones) (o : oracle) (forwarder : addr),
+  oracle_bytes_ok o -> forall q st,
+  fst (resolve_forwarding cache cache_get cache_insert_all zs o forwarder 34 q st) <> OutOfFuel
+  /\ forall fuel, (34 <= fuel)%nat ->
+       resolve_forwarding cache cache_get cache_insert_all zs o forwarder fuel q st
+       = resolve_forwarding cache cache_get cache_insert_all zs o forwarder 34 q st.
+Proof. exact forwarding_terminates. Qed.
+Print Assumptions C08_forwarding_terminates.
+
+(* no_panic: the resolvers panic only if the zone model does (Zones::resolve's unwrap and the two
+   panic sites of zone lookup -- C02's subject); nothing an upstream server sends can make them *)
+Theorem C08_recursive_no_panic :
+  forall (cache : Type) (cache_get : cache -> dname -> N -> list rr) (cache_insert_all : cache -> list rr -> cache)
+         (sort_names : list dname -> list dname) (zs : zones) (o : oracle) (pmode : protocol_mode) (port : N),
+  oracle_bytes_ok o -> ~ zone_panics zs -> forall fuel q st,
+  fst (resolve_recursive cache cache_get cache_insert_all sort_names zs o pmode port fuel q st) <> Panic.
+Proof. exact recursive_no_panic. Qed.
+Print Assumptions C08_recursive_no_panic.
+
+Theorem C08_forwarding_no_panic :
+  forall (cache : Type) (cache_get : cache -> dname -> N -> list rr) (cache_insert_all : cache -> list rr -> cache)
+         (zs : zones) (o : oracle) (forwarder : addr),
+  oracle_bytes_ok o -> ~ zone_panics zs -> forall fuel q st,
+  fst (resolve_forwarding cache cache_get cache_insert_all zs o forwarder fuel q st) <> Panic.
+Proof. exact forwarding_no_panic. Qed.
+Print Assumptions C08_forwarding_no_panic.
+
+(* answer_provenance.  Every record of a successful result (answer records and the SOA) agrees in
+   owner, type and data with
+     - a record (or the SOA) of a configured zone, or
+     - a record the cache held before the resolution, or
+     - a record of a message the oracle SENT during it: some logged exchange delivered octets
+       (after the 5 s time-out, the 512-octet receive buffer, the TCP length prefix) that decode to
+       a message which passed the header gate against that exchange's request and in which the
+       filter's specification [allowed] (C06) admits the record for that exchange's question.
+   "Agrees in owner, type and data": the cache does not keep the class and hands back the remaining
+   TTL.  The cache is abstract; what is assumed of it are the two laws below ([cache_content]: the
+   records it holds), which SimpleCache meets (C08_simple_cache_laws). *)
+Theorem C08_answer_provenance_recursive :
+  forall (cache : Type) (cache_get : cache -> dname -> N -> list rr) (cache_insert_all : cache -> list rr -> cache)
+         (sort_names : list dname -> list dname) (zs : zones) (o : oracle) (pmode : protocol_mode) (port : N)
+         (cache_content : cache -> rr -> Prop),
+  (forall c n t r, In r (cache_get c n t) -> exists r', cache_content c r' /\ rr_sim r r') ->
+  (forall c rrs r, cache_content (cache_insert_all c rrs) r -> cache_content c r \/ exists r', In r' rrs /\ rr_sim r r') ->
+  forall fuel q st res st',
+  resolve_recursive cache cache_get cache_insert_all sort_names zs o pmode port fuel q st = (Ok res, st') ->
+  forall r, In r (resolved_rrs res ++ opt_list (resolved_soa_rr res)) ->
+  exists r0, rr_sim r r0 /\
+    (((exists name qt z zr, zones_resolve zs name qt = Some (z, Ok zr) /\ In r0 (zresult_rrs zr))
+      \/ (exists name qt z zr, zones_resolve zs name qt = Some (z, zr) /\ zone_soa_rr z = Some r0))
+     \/ cache_content (fst st) r0
+     \/ (exists e resp mc, In e (ts_rlog (snd st')) /\ reply_from o e /\ exchange_message e = Some resp
+           /\ response_matches_request (make_request (x_question e) (x_rd e)) resp = true
+           /\ allowed (x_question e) mc resp r0)).
+Proof. exact recursive_provenance. Qed.
+Print Assumptions C08_answer_provenance_recursive.
+
+(* forwarding: the third source is a record of the ANSWER section of a reply of the forwarder that
+   passed the gate (passed through unfiltered: deviation D6), or the single SOA of its authority
+   section when it denies the name or type *)
+Theorem C08_answer_provenance_forwarding :
+  forall (cache : Type) (cache_get : cache -> dname -> N -> list rr) (cache_insert_all : cache -> list rr -> cache)
+         (zs : zones) (o : oracle) (forwarder : addr) (cache_content : cache -> rr -> Prop),
+  (forall c n t r, In r (cache_get c n t) -> exists r', cache_content c r' /\ rr_sim r r') ->
+  (forall c rrs r, cache_content (cache_insert_all c rrs) r -> cache_content c r \/ exists r', In r' rrs /\ rr_sim r r') ->
+  forall fuel q st res st',
+  resolve_forwarding cache cache_get cache_insert_all zs o forwarder fuel q st = (Ok res, st') ->
+  forall r, In r (resolved_rrs res ++ opt_list (resolved_soa_rr res)) ->
+  exists r0, rr_sim r r0 /\
+    (zone_src zs r0 \/ cache_content (fst st) r0
+     \/ (exists e resp, In e (ts_rlog (snd st')) /\ reply_from o e /\ x_addr e = forwarder /\ exchange_message e = Some resp
+           /\ response_matches_request (make_request (x_question e) (x_rd e)) resp = true
+           /\ (In r0 (m_answers resp) \/ allowed_soa (x_question e) 0 resp r0))).
+Proof. exact forwarding_provenance. Qed.
+Print Assumptions C08_answer_provenance_forwarding.
+
+(* the cache laws are satisfiable: SimpleCache (what the model driver runs) meets them *)
+Theorem C08_simple_cache_laws :
+  (forall c n t r, In r (sc_get c n t) -> exists r', sc_content c r' /\ rr_sim r r')
+  /\ (forall c rrs r, sc_content (sc_insert_all c rrs) r -> sc_content c r \/ exists r', In r' rrs /\ rr_sim r r')
+  /\ (forall r, ~ sc_content sc_empty r).
+Proof.
+  split; [exact sc_get_content|]. split; [intros c rrs r; apply sc_insert_all_content|exact sc_empty_content].
+Qed.
+Print Assumptions C08_simple_cache_laws.
+
+(* ---- circular referrals and alias cycles are instances: two worked oracles ---- *)
+Definition c08_nm (ls : list label) : dname :=
+  {| labels := ls ++ [[]]; nlen := fold_right (fun l acc => 1 + llen l + acc) 1 ls |}.
+Definition c08_root := c08_nm [].
+Definition c08_a := c08_nm [[97]].                               (* a. *)
+Definition c08_com := c08_nm [[99; 111; 109]].                   (* com. *)
+Definition c08_ns_com := c08_nm [[110; 115]; [99; 111; 109]].    (* ns.com. *)
+Definition c08_www_com := c08_nm [[119; 119; 119]; [99; 111; 109]].  (* www.com. *)
+Definition c08_a_com := c08_nm [[97]; [99; 111; 109]].           (* a.com. *)
+Definition c08_rr (n : dname) (t : N) (d : rdata) : rr :=
+  {| rr_name := n; rr_type := t; rr_class := RC_IN; rr_ttl := 300; rr_data := d |}.
+Definition c08_ip1 : N := 167772161.      (* 10.0.0.1 *)
+Definition c08_ip2 : N := 167772162.      (* 10.0.0.2 *)
+
+(* root hints: a non-authoritative `.` zone naming a. = 10.0.0.1 *)
+Definition c08_hints : zones :=
+  match (let* z1 := zone_insert false (zone_new c08_root None) c08_root RT_NS (RD_Name c08_a) 3600 in
+         zone_insert false z1 c08_a RT_A (RD_A c08_ip1) 3600) with
+  | Ok z => zones_insert [] z
+  | _ => []
+  end.
+
+Definition c08_msg (q : question) (an au ad : list rr) : list byte :=
+  match encode (reply_message q {| sr_answers := an; sr_authority := au; sr_additional := ad; sr_aa := false;
+                                   sr_rcode := RCODE_NoError |}) with
+  | Ok bs => bs
+  | _ => []
+  end.
+Definition c08_q (n : dname) : question := {| q_name := n; q_type := RT_A; q_class := RC_IN |}.
+
+(* 10.0.0.1 refers www.com. to ns.com. = 10.0.0.2, which refers it back to a. = 10.0.0.1 *)
+Definition c08_circle : table :=
+  [ ((inl c08_ip1, c08_q c08_www_com),
+     c08_msg (c08_q c08_www_com) [] [c08_rr c08_com RT_NS (RD_Name c08_ns_com)] [c08_rr c08_ns_com RT_A (RD_A c08_ip2)]);
+    ((inl c08_ip2, c08_q c08_www_com),
+     c08_msg (c08_q c08_www_com) [] [c08_rr c08_com RT_NS (RD_Name c08_a)] [c08_rr c08_a RT_A (RD_A c08_ip1)]) ].
+
+(* 10.0.0.1 answers www.com. with an alias to a.com. and a.com. with an alias to www.com. *)
+Definition c08_alias_loop : table :=
+  [ ((inl c08_ip1, c08_q c08_www_com),
+     c08_msg (c08_q c08_www_com) [c08_rr c08_www_com RT_CNAME (RD_Name c08_a_com)] [] []);
+    ((inl c08_ip1, c08_q c08_a_com),
+     c08_msg (c08_q c08_a_com) [c08_rr c08_a_com RT_CNAME (RD_Name c08_www_com)] [] []) ].
+
+Definition c08_run (t : table) :=
+  resolve_simple (ModeRecursive PreferV4) 53 c08_hints (table_oracle t []) 200%nat (c08_q c08_www_com)
+                 (sc_empty, tstate_init).
+
+(* the model ends both with an error after two exchanges -- not with OutOfFuel: the second referral
+   is not deeper than the first, so it is not followed; the second alias leads back to a question
+   already on the stack *)
+Example C08_circular_referral_ends :
+  fst (c08_run c08_circle) = Err (EDeadEnd (c08_q c08_www_com))
+  /\ length (ts_rlog (snd (snd (c08_run c08_circle)))) = 2%nat.
+Proof. vm_compute. split; reflexivity. Qed.
+
+Example C08_alias_loop_ends :
+  fst (c08_run c08_alias_loop) = Err (EDeadEnd (c08_q c08_a_com))
+  /\ length (ts_rlog (snd (snd (c08_run c08_alias_loop)))) = 2%nat.
+Proof. vm_compute. split; reflexivity. Qed.
+
+(* the oracles of these examples send octets, and the example zones do not panic: the hypotheses of
+   the theorems above are satisfiable *)
+Example C08_example_oracle_ok : oracle_bytes_ok (table_oracle c08_circle []) /\ oracle_bytes_ok (table_oracle c08_alias_loop []).
+Proof.
+  split; apply table_oracle_bytes_ok; vm_compute; repeat constructor.
+Qed.
+(* ... and so is "the zone model does not panic": e.g. a resolver configured without zones *)
+Example C08_example_zones_ok : ~ zone_panics [].
+Proof.
+  intros (n & qt & z & H). unfold zones_resolve, zones_get in H.
+  assert (E : forall sufs, zones_get_loop (@nil (dname * zone)) sufs = None).
+  { induction sufs as [|ls rest IH]; [reflexivity|]. cbn [zones_get_loop alookup]. destruct (from_labels ls); exact IH. }
+  rewrite E in H. discriminate.
+Qed.
+
+(* ... and so does the REAL cache model (Cache/CacheModel.v under its representation invariant, at
+   any fixed virtual instant [now]; Resolver/ResolverCacheInstance.v): every theorem above stated for
+   an abstract cache applies to it.  (The model driver of the correspondence stream still runs
+   SimpleCache.) *)
+From RV Require Import Resolver.LocalSpec Resolver.ResolverCacheInstance.
+Theorem C08_real_cache_laws : forall now : N,
+  (forall c n t r, In r (rc_get now c n t) -> exists r', rc_content c r' /\ rr_sim r r')
+  /\ (forall c rrs r, rc_content (rc_insert_all now c rrs) r -> rc_content c r \/ exists r', In r' rrs /\ rr_sim r r')
+  /\ (forall c, cget_ok (rc_get now c))
+  /\ (forall r, ~ rc_content rc_new r).
+Proof.
+  intro now. split; [exact (rc_get_content now)|]. split; [exact (rc_insert_all_content now)|].
+  split; [exact (rc_get_ok now)|exact rc_new_content].
+Qed.
+Print Assumptions C08_real_cache_laws.
+
+(* for instance: provenance for the recursive resolver over the real cache model *)
+Theorem C08_answer_provenance_recursive_real_cache :
+  forall (now : N) (sort_names : list dname -> list dname) (zs : zones) (o : oracle) (pmode : protocol_mode) (port : N)
+         fuel q st res st',
+  resolve_recursive rcache (rc_get now) (rc_insert_all now) sort_names zs o pmode port fuel q st = (Ok res, st') ->
+  forall r, In r (resolved_rrs res ++ opt_list (resolved_soa_rr res)) ->
+  exists r0, rr_sim r r0 /\
+    (zone_src zs r0 \/ rc_content (fst st) r0 \/ upstream_src o (ts_rlog (snd st')) r0).
+Proof.
+  intros now sort_names zs o pmode port.
+  exact (recursive_provenance rcache (rc_get now) (rc_insert_all now) sort_names zs o pmode port rc_content
+           (rc_get_content now) (rc_insert_all_content now)).
+Qed.
+Print Assumptions C08_answer_provenance_recursive_real_cache.
